@@ -613,7 +613,19 @@ func runC17(c *Ctx, body json.RawMessage) *Verdict {
 				if _, err := os.Lstat(p); err != nil {
 					continue // moved away at the end of this phase
 				}
-				free, err := flockFree(p)
+				// goroutines of database/sql itself (the watcher of a cancelled query, the connection cleaner) are
+				// no tasks: one of them may still be on its way through the driver's Close. The lock counts as
+				// leaked if it is still held after everything in the bubble has come to rest and 10 simulated
+				// seconds have passed.
+				var free bool
+				var err error
+				for try := 0; try < 100; try++ {
+					synctest.Wait()
+					if free, err = flockFree(p); err != nil || free {
+						break
+					}
+					time.Sleep(100 * time.Millisecond)
+				}
 				if err != nil {
 					bad = v.Harness("flock probe: %v", err)
 					return
